@@ -57,6 +57,13 @@ def plan(tier, seed):
                 # 4 cells: the smallest column in which a cell can tie with the mean while another cell lies strictly
                 # between two control points (with 3 cells every cell coincides with a control point)
                 jobs.append(dict(var, kind='def', cmd=sp.name, shape=[4], pts=2, reps='n' if tier == 'quick' else 'm', kinds='f', k=1))
+        # ---- the documented mapping must also come out of the DOUBLES: a magnitude-relative rounding pattern on every
+        # array operation exposes formulas whose errors do not cancel (data with a large offset and a small range)
+        if not heavy(sp.name) and not mtm:
+            vs_ = [v for v in D.default_variants(sp, 'quick') if not v.get('omit')][:1 if tier == 'quick' else 3]
+            for var in vs_:
+                jobs.append(dict(var, kind='def', cmd=sp.name, shape=[3] if (sp.name in D.STAT_CMDS or sp.name == 'CvtToFuzzy') else [2], pts=2, reps='n', kinds='f', k=1,
+                                 rounding='rel', resample=0, max_paths=2000))
         if sp.name in MONOTONE:
             for var in D.default_variants(sp, 'quick'):
                 jobs.append(dict(var, kind='monotone', cmd=sp.name, shape=[2] if (tier == 'quick' or 'ZScore' in sp.name) else [3], pts=2, reps='m', kinds='f', k=1))
@@ -79,9 +86,25 @@ def scenario(ctx, cfg):
         sp = specs[cfg['cmd']]
         kw = D.build_kwargs(ctx, sp, cfg, fuzzy_pre=True)
         D.assume_preconditions(ctx, sp, kw, cfg)
+        if cfg.get('rounding'):
+            # magnitudes for which float64 still resolves the data: |cell| <= 2^44, output-side parameters <= 64
+            for h in D.arrays_of(kw):
+                cs_ = D.arr_cells(h.arr)[0]
+                for c in cs_:
+                    ctx.assume(z3.And(c >= -2 ** 44, c <= 2 ** 44))
+                if len(cs_) > 1:
+                    ctx.assume(z3.Distinct(*cs_))       # a search job: distinct cells, so that one of three lies strictly inside the range
+            for pn, pv in kw.items():
+                vals = pv if isinstance(pv, list) else [pv]
+                for v in vals:
+                    if isinstance(v, symx.SymNum):
+                        b = 64 if pn in ('StartVal', 'EndVal', 'NormalValues', 'FuzzyValues', 'DefaultNormalValue', 'DefaultFuzzyValue') else 2 ** 44
+                        ctx.assume(z3.And(v.e >= -b, v.e <= b))
         snap = D.snapshot_inputs(kw)
         r = D.run_cmd(ctx, sp.name, kw)
-        obs, ref = D.oracle_obligations(sp, kw, snap, r, want=('mask', 'value', 'kind', 'shape'), in_shape=cfg['shape'])
+        obs, ref = D.oracle_obligations(sp, kw, snap, r, want=('value',) if cfg.get('rounding') else ('mask', 'value', 'kind', 'shape'), in_shape=cfg['shape'])
+        if cfg.get('rounding'):
+            return [o for o in obs if o['group'] == 'value']
         if ref is not None:
             obs.append(D.fact_ob('declared outcome', ('declared_outcome', 0), group='outcome'))
         return obs
